@@ -9,3 +9,9 @@ open AC.Props.C09
 #print axioms C09_nonempty
 #print axioms C09_src_fixed
 #print axioms AC.DecompTie.fixedWindow_tie
+#print axioms C09_src_sumInt
+#print axioms C09_src_dictionary
+#print axioms C09_src_fixed_sum
+#print axioms AC.DecompTie.termInt_tie
+#print axioms AC.DecompTie.sumInt_tie
+#print axioms AC.DecompTie.dictionary_tie
